@@ -1,5 +1,6 @@
 pub mod conc;
 pub mod flw;
+pub mod fmt;
 pub mod flwgen;
 pub mod spec;
 
@@ -15,6 +16,7 @@ pub fn generate(prop: &str, tier: &str, seed: u64) -> Vec<Vec<String>> {
         "C12" => spec::gen_c12(tier, seed),
         "C01" => flwgen::gen_c01(tier, seed),
         "C03" => conc::gen_c03(tier, seed),
+        "C20" => fmt::gen_c20(tier, seed),
         "C06" => flwgen::gen_c06(tier, seed),
         "C07" => flwgen::gen_c07(tier, seed),
         "C08" => flwgen::gen_c08(tier, seed),
@@ -45,6 +47,7 @@ pub fn execute(ctx: &mut Ctx, lines: &[String]) -> Vec<(Vec<String>, Vec<String>
         "spec" => vec![(lines.to_vec(), spec::execute(ctx, lines))],
         "flw" => vec![(lines.to_vec(), flw::execute(ctx, lines))],
         "conc" => conc::execute(ctx, lines),
+        "fmt" => vec![(lines.to_vec(), fmt::execute(ctx, lines))],
         m => panic!("unknown model {m}"),
     }
 }
